@@ -41,6 +41,11 @@
 //	                                broadcast goes to the replica; after a truncation (or fresh=1) a fresh node
 //	                                replays the producer's trunk from genesis; pow=1: the consensus re-stamps the
 //	                                block in CalculateBlock (nonce, id, signature)          -> h=<height> award=<amt> timer=<task ids|->
+//	mine fault=state|ledger         a round in which the first storage write group to the state store (the batch of
+//	                                State.PlayForMiner) / the ledger store (Ledger.ConfirmBlock) fails; the block a
+//	                                failed round leaves in the ledger is judged like a broadcast block and goes to the
+//	                                replica (peers are served it by block sync); the NEXT `mine` is the miner's own
+//	                                recovery (ledger tip != state tip: State.Walk, then the next block)   -> failed h=<ledger height>
 //
 // Oracle keys (impl-side, independent of the model): order-violates-dependency, order-violates-antidependency,
 // order-not-permutation, graph-misses-dependency, graph-misses-antidependency, graph-admits-unreplayable-order, order-not-replayable,
@@ -51,7 +56,9 @@
 // (the schedule of the genesis configuration at the block's height, computed by the harness in exact arithmetic),
 // award-schedule-wrong, timer-tx-missing, timer-tx-spurious, timer-tx-wrong, timer-tx-not-second, timer-tx-count,
 // timer-tx-cites-later-transaction, timer-tx-overwrites-version-read-later (known findings), mined-block-not-replayable,
-// trunk-not-replayable, fresh-replica-state-differs, trunk-unreadable.
+// trunk-not-replayable, fresh-replica-state-differs, trunk-unreadable, replica-state-differs:total (total supply of producer vs
+// replica after every round), replica-state-differs:total-after-restart (the total stored in a reopened copy of the
+// producer's image), producer-image-unreadable.
 package main
 
 import (
@@ -124,8 +131,12 @@ func main() {
 	nraw := 3000
 	ncases := 400
 	nsize := 4
+	nlimit := 24
 	if args.Tier == "thorough" {
-		nraw, ncases, nsize = 60000, 5000, 60
+		nraw, ncases, nsize, nlimit = 60000, 5000, 60, 300
+	}
+	if n := xvlib.EnvInt("XV_LIMIT_CASES", -1); n >= 0 {
+		nlimit = n
 	}
 	if n := xvlib.EnvInt("XV_CASES", 0); n > 0 {
 		ncases = n
@@ -145,6 +156,14 @@ func main() {
 	}
 	for i := 0; i < nsize; i++ {
 		g.scenario("size")
+		kvmem.Drop(args.Scratch)
+	}
+	// 3. block size limits that bind (large transactions with small relatives), pools drained block by block
+	for i := 0; i < nlimit; i++ {
+		g.limitScenario()
+		if i < 1 {
+			out.Sample(map[string]interface{}{"ops": headTail(g.canon, 40)})
+		}
 		kvmem.Drop(args.Scratch)
 	}
 	out.Count(fmt.Sprintf("replica-replays-total:%d", ex.replays))
